@@ -27,6 +27,14 @@ CHECKS = {
          "For each sampled game and presentation change TLC checks descs[2] = TransformGame(descs[1], rel), then that solvability, zero set, probabilities, rewards (within 2 eps H) and clearly decided strategies correspond under the renaming.", "7 C13"),
  "C07": ("TLC trace validation of reverse_dfs / reverse_transition_list on TLC-enumerated and sampled graphs (exact least fixed point in TLA+) and on large graphs (O(edges) certificate clause checked by TLC)",
          "All graphs with 2 states (and, in thorough, 3 states) and <= 2 edges per state x all final sequences of length <= 3 with repetition are enumerated by TLC; 3-8 state graphs are sampled; chains of thousands of states, diamonds, random graphs and the committed inputs are checked with a certificate that TLC verifies locally. Returned list must be strictly ascending and equal the backward-reachable non-final set; the reversed table must have every key and the right multiplicities.", "7 C07"),
+ "C08": ("TLC decides probabilistic bisimilarity (partition refinement, spec/Bisim.tla) between each game the generator wrote and the game that the Roborta rules define (spec/Roborta.tla), on TLC-generated boards",
+         "Boards are generated by TLC (all boards with <= 2 tiles, in thorough <= 3 tiles, sampled up to 12 tiles; every arrow / loose layout; sampled probability triples). The file is written by the repository's generator and read back by the repository's reader; TLC builds the abstract game from the rules of C08 and checks bisimilarity from the initial states with labels, owners, rewards and final states, for all three variants, plus exactness of the emitted probabilities.", "7 C08"),
+ "C11": ("TLC trace validation of generated files (loads into game_a/b/c, proper, shape clauses) + solver-flow trace validation of every emitted game in the batch runner's order + command-line runs on TLC-generated accepted parameter sets",
+         "Each generated file (write_robots and the manual entry point) must load into exactly the three games, pass the solver's validation, have positive probabilities summing to 1, a single absorbing winning final state and an absorbing losing state; each game is then solved with pruning and, if that did not fail, without, and the outcome is judged by Trace_Solver (complete result, or no-solution exactly when the initial state is in the exact zero set; a timeout is accepted only as the listed known finding K3, when TLC shows the conditioned game is not stopping).", "7 C11"),
+ "C15": ("TLC trace validation of check_input / gen_rnd_board / command-line events against the generator contract (spec/GeneratorRules.tla, state machine spec/Generator.tla with memo = reproducibility), on TLC-generated boundary parameter sets and call histories",
+         "Every boundary of the eight documented range checks is exercised alone and in sampled combinations (including NaN and the value 1-1e-6), through check_input and through the command line in scratch directories (nothing may be written on refusal); boards are checked for shape, ranges, arrows, force-down iff, reproducibility over histories p,q,p,p',p, and loose-tile frequency at 6 sigma on 30x30 boards.", "7 C15"),
+ "C17": ("TLC trace validation of created file names against FileName(p) (spec/GeneratorRules.tla) over the complete k/100 sweep of each probability field, with collision tracking across the sweep",
+         "All 396 whole-percent values (k = 1..99 in each of the four probability fields) plus sampled parameter sets go through the command line, each in a directory of its own; TLC checks that exactly one file is created, that its name is FileName(p), and that no two different whole-percent parameter sets of the session map to one name.", "7 C17"),
  "C09": ("TLC generation of every malformation (12 documented rules x every position x boundary / ill-typed values, module Malformed) + TLC trace validation of the outcome of solve() and of run_games",
          "For each base game every way of breaking one rule at one position is generated by TLC, which also re-checks that the named rule is really violated; the real solver must raise ValueError in both modes and the batch runner must record the message and still solve the other games.", "7 C09"),
  "C12": ("model checking of the batch protocol (Batch.tla, with two counter-models) + TLC trace validation of run_games on TLC-generated ordered dictionaries against solo runs",
@@ -39,6 +47,10 @@ CHECKS = {
 
 ENGINE = {}
 NOTES = {
+ "C08": "Trusted: TLC, the JVM, the harness projection of file games into integer weights per million (its exactness is itself a clause). Reading where C08 is silent: a failed robot move re-lands the robot on its own tile through that tile's break check.",
+ "C11": "Trusted: as C08 plus the solver flow; timeouts are decisive only after a re-run with a long budget (240 s quick / 1800 s thorough).",
+ "C15": "Trusted: TLC, the JVM, the harness (argument formatting for the command line, parsing of the board depiction comment). The pseudo-random stream is an uninterpreted function for the specification.",
+ "C17": "Trusted: as C15.",
  "C07": "Trusted: TLC, the JVM, the harness projection. For graphs above 300 states exactness is established by a certificate (ranks) that the harness proposes and TLC verifies; termination is observed with a 120 s budget.",
  "C09": "Trusted: TLC, the JVM, the decoder of the tagged Python values (vlib/jobs_extra.py: decode). Only the kinds of ill-typed value the property lists are generated; messages are not compared.",
  "C12": "Trusted: TLC, the JVM, the harness (it also computes the solo results by calling the real solver on fresh deep copies - the spec supplies the protocol, not the numbers). Values are compared through digests of their repr.",
@@ -66,6 +78,10 @@ def main():
        "kind_free_text": "design-level model checking of the pipeline state machine (spec/Solver.tla)"},
       {"name": "tlc-batch", "path": "spec/Batch.tla", "serves_properties": ["C12", "C16"],
        "kind_free_text": "batch protocol model (MC_Batch*.cfg) and trace validation (spec/Trace_Batch.tla, spec/Report.tla)"},
+      {"name": "tlc-roborta", "path": "spec/Roborta.tla", "serves_properties": ["C08", "C11"],
+       "kind_free_text": "board generation (spec/Gen_Boards.tla), rules model, bisimulation (spec/Bisim.tla), trace validation (spec/Trace_Roborta.tla)"},
+      {"name": "tlc-generator", "path": "spec/Generator.tla", "serves_properties": ["C11", "C15", "C17"],
+       "kind_free_text": "parameter generation (spec/Gen_Params.tla), generator contract and state machine, trace validation (spec/Trace_Generator.tla)"},
       {"name": "tlc-graphs", "path": "spec/ReverseDFS.tla", "serves_properties": ["C07"],
        "kind_free_text": "graph generation (spec/Gen_Graphs.tla) and trace validation (spec/Trace_RevDFS.tla)"},
       {"name": "tlc-malformed", "path": "spec/Malformed.tla", "serves_properties": ["C09"],
